@@ -102,6 +102,7 @@ FIRST_MISSED = {
     "C17-9": "no check reported it -> CODEC-SIB: the pairing phrase is cut at every separator (strings.Split/Fields over the whole phrase) and copied into the word array",
     "C03-12": "no check reported it -> NONCE/HSK-ORDER ruleKeySchedule: InitializeKey is called from the key schedule only (InitializeKeyWithSalt, rotateKey, mixKey, InitializeSymmetric)",
     "C11-12": "own property silent (reported by C05 LOCKBAL) -> C11 shares LOCKBAL",
+    "C02-12": "no check reported it -> KEYSEP ruleEphemeralFresh: no production code configures an ephemeral key generator; the default is btcec.NewPrivateKey, assigned once",
     "C06-3": "no check reported it -> RATELIMIT: once lastResend is refreshed the packets are transmitted",
 }
 
